@@ -78,6 +78,10 @@ func genC33(seed uint64, tier string) *sim.Plan {
 	if sw.Bool(0.3) {
 		p.Cfg["late_prev"] = 1
 	}
+	ownFault := sw.Bool(0.3)
+	if ownFault {
+		p.Cfg["own_dkg_fault"] = int64(1 + sw.Intn(2))
+	}
 	epochs := r.Range(1, 4)
 	if tier == "thorough" {
 		epochs = r.Range(1, 6)
@@ -119,6 +123,12 @@ func genC33(seed uint64, tier string) *sim.Plan {
 		}
 		if r.Bool(0.3) {
 			p.Steps = append(p.Steps, sim.Step{Op: "myshare"})
+		}
+		if ownFault && r.Bool(0.8) {
+			// the NUT's own share at a seeded position among the first t inputs of the epoch
+			at := len(p.Steps) - cnt + r.Intn(min(cnt, t)+1)
+			at = min(max(at, 0), len(p.Steps))
+			p.Steps = append(p.Steps[:at], append([]sim.Step{{Op: "myshare"}}, p.Steps[at:]...)...)
 		}
 		if byz > 0 && r.Bool(0.12) {
 			// somewhere in the epoch: a notarized-block message that proves nothing
@@ -209,7 +219,7 @@ func runC33(env *sim.Env, p *sim.Plan) *sim.Result {
 	if t < 1 {
 		t = 1
 	}
-	w := NewWorld(WorldCfg{Seed: p.Seed, Miners: n, Sharders: int(p.CfgInt("sharders", 2)), T: t, Threshold: 66})
+	w := NewWorld(WorldCfg{Seed: p.Seed, Miners: n, Sharders: int(p.CfgInt("sharders", 2)), T: t, Threshold: 66, OwnDKGFault: int(p.CfgInt("own_dkg_fault", 0))})
 	defer w.Close()
 	mc := w.MC
 	c := &c33{w: w, tr: tr, rn: p.CfgInt("round", 5), prev: p.CfgInt("prev", 12345), delivered: map[string]string{}, injected: map[int64]bool{}, msgs: map[int]string{}}
@@ -241,7 +251,13 @@ func runC33(env *sim.Env, p *sim.Plan) *sim.Result {
 	c.mr = mc.AddRound(mc.CreateRound(round.NewRound(c.rn))).(*miner.Round)
 	mc.SetCurrentRound(c.rn)
 	synctest.Wait()
+	if w.OwnDKGBroken {
+		tr.Fault("own_dkg_share_inconsistent")
+	}
 	tr.Event("boot n=%d t=%d round=%d prev=%x", n, t, c.rn, c.prev)
+	if w.OwnDKGBroken {
+		tr.Event("own dkg key share inconsistent (fault %d)", p.CfgInt("own_dkg_fault", 0))
+	}
 
 	viol := func(oracle, sig, detail string) {
 		tr.Violate(&sim.Violation{Prop: "C33", Oracle: oracle, Sig: "C33/" + sig, Detail: detail})
@@ -283,7 +299,10 @@ func runC33(env *sim.Env, p *sim.Plan) *sim.Result {
 				continue
 			}
 			var sg bls.Sign
-			if err := sg.SetHexString(sh.Share); err != nil || !sg.Verify(owner.DKG.Pi, msg) {
+			// the owner's public key share as every other miner derives it from the public polynomials of the magic block
+			// (an honest peer's DKG instance), not from anything the owner or the NUT holds privately
+			pk := w.Miners[len(w.Miners)-1].DKG.GetPublicKeyByID(bls.ComputeIDdkg(owner.ID()))
+			if err := sg.SetHexString(sh.Share); err != nil || !sg.Verify(&pk, msg) {
 				viol("shares", "invalid-share-counted/"+kind, fmt.Sprintf("share %s.. of miner %d does not verify for round %d tc %d but is in GetVRFShares()", short(sh.Share), owner.Idx, c.rn, tc))
 				continue
 			}
@@ -393,6 +412,9 @@ func runC33(env *sim.Env, p *sim.Plan) *sim.Result {
 			synctest.Wait()
 			if vs := c.mr.VrfShare(); vs != nil {
 				c.delivered[w.Self.ID()+"/"+vs.Share] = "own"
+			}
+			if ok && w.OwnDKGBroken {
+				tr.Fault("own_vrf_share_from_inconsistent_key")
 			}
 			tr.Event("myshare redo=%v out=%v", ok, w.OutKinds())
 			tr.Outcome("myshare")
